@@ -51,6 +51,15 @@ class Check(PropertyCheck):
             if self.rng.chance(1, 12):
                 out.append(self.rng.choice(["ab\tcd", "+--+\t+--+\n|  |\t|  |\n+--+\t+--+", "-\t-\n \t|"]))
                 continue
+            if self.rng.chance(1, 14):
+                # a part at the end of a size axis: hundreds of separate groups on a row, a staircase, a long run or box
+                k = self.rng.below(3)
+                z = gen.many_groups(self.rng) if k == 0 else gen.staircase(self.rng, self.rng.choice([17, 33, 65, 70])) if k == 1 else \
+                    gen.long_things(self.rng)
+                z = clean(z.replace('"', "'").replace("{", "(").replace("}", ")").split("# Legend:")[0])
+                if z and all(ord(c) < 128 for c in z):
+                    out.append(z)
+                    continue
             if self.rng.chance(1, 5):
                 z = clean(gen.zoo_piece(self.rng, quotes=False, tags=False, special=False))
                 if z:
